@@ -165,9 +165,26 @@ def symp_ref(a, b):
     return (sum(a[i] * b[n + i] for i in range(n)) + sum(a[n + i] * b[i] for i in range(n))) % 2
 
 
+class _FixedErrors:
+    """error model stand-in: returns the scripted error (the sampling itself is C07's business)"""
+    def __init__(self, e):
+        self.e = e
+
+    def generate(self, code, error_rate, rng=None):
+        return np.array(self.e, dtype='uint8')
+
+
+class _NoCorrection:
+    def decode(self, syndrome, **kw):
+        return np.zeros(self.n2, dtype='uint8')
+
+    def __init__(self, n2):
+        self.n2 = n2
+
+
 def check_case(c):
     try:
-        code = K.build(c['class'], tuple(c['size']), (c['deform'][0], c['deform'][1]))
+        code = K.build(c['class'], tuple(c['size']), (c['deform'][0], c['deform'][1]), reuse=bool(c.get('reuse')))
         H = K.dense(code.stabilizer_matrix) if code.n_stabilizers else []
         LX, LZ = K.dense(code.logicals_x), K.dense(code.logicals_z)
         k = len(LX)
@@ -184,6 +201,16 @@ def check_case(c):
             want = [symp_ref(l, e) for l in LZ] + [symp_ref(l, e) for l in LX]
             if le != want:
                 return {'error': vec(e)}, f'logical_errors={le} but [products with logical Z | with logical X]={want}'
+        # the simulation's own verdict (run_once) on a scripted residual error with a null decoder
+        from panqec.simulation._direct_simulation import run_once
+        for e in c['errors'][:60]:
+            r = run_once(code, _FixedErrors(e), _NoCorrection(2 * code.n), 0.1, rng=np.random.default_rng(0))
+            stab = gf2_in_span(rows, K.pack(e))
+            if bool(r['success']) != stab:
+                return {'error': vec(e)}, (f"run_once success={bool(r['success'])} for residual error in stabilizer "
+                                           f"group={stab}")
+            if bool(r['codespace']) != all(symp_ref(g, e) == 0 for g in H):
+                return {'error': vec(e)}, 'run_once codespace flag disagrees with commutation with all generators'
         # stacks: get_effective_error on a 2-D array of errors = row-by-row effects
         from panqec.bpauli import get_effective_error
         es = c['errors']
@@ -227,14 +254,17 @@ def oracle(ctx, deep=False, broken=None):
         code = K.build(cls, size, deform)
         cases.append({'class': cls, 'size': list(size), 'deform': [deform[0], deform[1]],
                       'errors': structured_errors(code, rng, 10 if deep else 4)})
+        if deform[0] is not None:   # the same on an object that was used and deformed before
+            cases.append({'class': cls, 'size': list(size), 'deform': [deform[0], deform[1]], 'reuse': True,
+                          'errors': structured_errors(code, rng, 4)})
     fails = []
     n_eval = 0
     seen = set()
     for c in cases:
         n_eval += len(c['errors'])
         r = check_case(c)
-        if r and c['class'] not in seen:
-            seen.add(c['class'])
+        if r and (c['class'], bool(c.get('reuse'))) not in seen:
+            seen.add((c['class'], bool(c.get('reuse'))))
             where, msg = r
             # minimise: keep only the failing error(s)
             errs = [[int(ch) for ch in where[k]] for k in ('error', 'error2') if k in where] or c['errors'][:2]
